@@ -1603,7 +1603,8 @@ _vbi_cache_put_page		(vbi_cache *		ca,
 
  replace:
 	if (likely (memory_available == memory_needed
-		    && 1 == death_count)) {
+		    && 1 == death_count
+		    && cache_page_size (death_row[0]) == memory_needed)) {
 		/* Usually we can replace a single page of same size. */
 
 		new_cp = death_row[0];
